@@ -21,7 +21,7 @@ func (c18Stream) Name() string               { return "c18" }
 func (c18Stream) CaseTimeout() time.Duration { return 60 * time.Second }
 func (c18Stream) NoModel() bool              { return true }
 func (c18Stream) Rule() string {
-	return "TLS configurations {server authentication only, client certificate required and verified (the test directory's WithMTLS configuration)} x {static certificate list, certificate supplied by the GetCertificate callback, whole configuration supplied per client by GetConfigForClient} x offenders {plaintext LDAP request of each of the seven operations, random bytes, TCP connect without ClientHello, valid TLS without a client certificate, a certificate from a different CA (generated after, or before, the server configuration in the same process), a foreign leaf with the genuine client certificate appended to its chain, no / foreign certificate without SNI, a truncated first TLS record followed by silence} (1..6 offenders in parallel, now and then together with a crowd of 70 clients that connect and stay silent), optionally with a second, weaker TLS configuration handed to NewServer (the one given to Run governs), concurrently with two conforming clients issuing requests and a third that connects while the offenders (a silent one holds its connection for 1.2 s) are still there; oracle: no handler ever runs for an offender's message (offenders use reserved message ids) nor on an offender's connection at all, every conforming request is answered, and each offender's connection is ended without disturbing the others; non-trivial = at least one offender whose bytes would decode as LDAP, distinct by scenario"
+	return "TLS configurations {server authentication only, client certificate required and verified (the test directory's WithMTLS configuration)} x {static certificate list, certificate supplied by the GetCertificate callback, whole configuration supplied per client by GetConfigForClient} x offenders {plaintext LDAP request of each of the seven operations, random bytes, TCP connect without ClientHello, valid TLS without a client certificate, a certificate from a different CA (generated after, or before, the server configuration in the same process), a foreign leaf with the genuine client certificate appended to its chain, no / foreign certificate without SNI, a truncated first TLS record followed by silence} (1..6 offenders in parallel, now and then together with a crowd of 140 clients that connect and stay silent, while a conforming client that completed its handshake earlier sends its first request only then), optionally with a second, weaker TLS configuration handed to NewServer (the one given to Run governs), concurrently with two conforming clients issuing requests and a third that connects while the offenders (a silent one holds its connection for 1.2 s) are still there; oracle: no handler ever runs for an offender's message (offenders use reserved message ids) nor on an offender's connection at all, every conforming request is answered, and each offender's connection is ended without disturbing the others; non-trivial = at least one offender whose bytes would decode as LDAP, distinct by scenario"
 }
 
 var c18Offenders = []string{"plain-bind", "plain-search", "plain-modify", "plain-add", "plain-delete", "plain-extended", "plain-unbind", "random", "silent", "nocert", "othercert", "otherchain", "nocert-nosni", "othercert-nosni", "halfhello", "earliercert"}
@@ -39,7 +39,7 @@ func (c18Stream) Generate(rng *rand.Rand, n int, thorough bool) []Case {
 			}
 		}
 		if rng.Intn(8) == 0 {
-			offs = append(offs, "silentcrowd") // 70 clients that connect and never say a word
+			offs = append(offs, "silentcrowd") // 140 clients that connect and never say a word
 		}
 		newsrv := 0
 		if mtls == 1 && rng.Intn(3) == 0 {
@@ -161,6 +161,16 @@ func (c18Stream) Impl(c Case) string {
 			}
 		}(g)
 	}
+	// a conforming client that completes its handshake now and sends its first request only when the crowd has gathered
+	var idle *tls.Conn
+	if hasCrowd {
+		cfg := goodCli.Clone()
+		cfg.ServerName = "localhost"
+		if c, err := tls.DialWithDialer(&net.Dialer{Timeout: 3 * time.Second}, "tcp", sut.addr, cfg); err == nil {
+			idle = c
+			defer idle.Close()
+		}
+	}
 	// offenders
 	var ow sync.WaitGroup
 	for i, kind := range strings.Split(p["offenders"], ",") {
@@ -171,7 +181,7 @@ func (c18Stream) Impl(c Case) string {
 			switch {
 			case kind == "silentcrowd":
 				var cs []net.Conn
-				for j := 0; j < 70; j++ {
+				for j := 0; j < 140; j++ {
 					if c, err := net.DialTimeout("tcp", sut.addr, 3*time.Second); err == nil {
 						cs = append(cs, c)
 					}
@@ -256,6 +266,14 @@ func (c18Stream) Impl(c Case) string {
 		case <-time.After(5 * time.Second):
 		}
 		time.Sleep(20 * time.Millisecond)
+	}
+	if idle != nil {
+		cl := &rawClient{c: idle}
+		_ = cl.send(opFrame("bind", 778))
+		f, err := cl.readFrame(2 * time.Second)
+		if err != nil || !strings.HasPrefix(strictView(f), "result id=778 ") {
+			fail("a conforming client that had completed its handshake and sat idle while silent connections gathered was not answered: %v", err)
+		}
 	}
 	{
 		cfg := goodCli.Clone()
